@@ -394,8 +394,8 @@ func HarnessC04Compile() {
 	if envKind == 1 && vfBool("operator") {
 		ops = append(ops, Operator("+", "Add"))
 	}
-	if envKind == 1 && vfBool("constexpr") {
-		ops = append(ops, ConstExpr("Twice"))
+	if vfBool("constexpr") {
+		ops = append(ops, ConstExpr("Twice")) // with the map environment and without Env the function does not exist
 	}
 	if m := vfChoice("patch", 5); m > 0 {
 		ops = append(ops, Patch(&vfReplacer{m}))
